@@ -8,18 +8,19 @@ NOTE_COMMON = ("Trusted: Coq 8.16.1 kernel + vm_compute; the data translators (t
                "the Python correspondence harness. Modelled, not verified: CPython builtins and third-party libraries named in DESIGN.md section 8. "
                "Every Print Assumptions is required to report 'Closed under the global context'.")
 
-CLAIMED = {
-    "C17": dict(
-        technique="Coq refinement proof (induction over operation sequences) + extracted-model correspondence",
-        text=("Coq theorems (Props/C17.v): for every operation sequence, from every dictionary satisfying the representation invariant and both factory settings, "
-              "the method-by-method model of CaseInsensitiveOrderedDict yields the outputs and items() of a plain ordered dict keyed by str.lower-ed keys "
-              "(refinement by induction over the op list; lower-idempotence discharged by reflection over the generated Unicode table); invariants keys-lower/no-duplicates; "
-              "construction, missing-list-key, copy/deepcopy/pickle clauses. The model is tied to ordereddict.py by running the extracted model and the real class "
-              "on all op sequences up to length 2 (3 in thorough) over a 6-key mixed-case alphabet plus random histories, comparing every output and items() after every step. "
-              "Deepcopy aliasing is only exercised by the hunter (value-level model)."),
-        design_ref="DESIGN.md 7/C17",
-        note=NOTE_COMMON + " C17: collections.OrderedDict and pickle/copy protocols are modelled (Lib/PyDict.v, Model/OrderedDict.v); U+03A3 final-sigma excluded from str.lower's model."),
-}
+import sys, glob, importlib
+sys.path.insert(0, os.path.join(ROOT, "tools"))
+CLAIMED = {}
+REASONS = {}
+for f in sorted(glob.glob(os.path.join(ROOT, "tools", "checks", "C[0-9]*.py"))):
+    pid = os.path.splitext(os.path.basename(f))[0]
+    m = importlib.import_module("checks." + pid)
+    if getattr(m, "MANIFEST", None):
+        c = dict(m.MANIFEST)
+        c["note"] = NOTE_COMMON + " " + c.get("note", "")
+        CLAIMED[pid] = c
+    elif getattr(m, "NOT_APPLICABLE", None):
+        REASONS[pid] = m.NOT_APPLICABLE
 
 REASON_PENDING = "check not built yet (work in progress, see DESIGN.md section 9)"
 
@@ -49,7 +50,7 @@ def main():
                       "kind_free_text": "Coq 8.16 development under coq/ (generated data in coq/Gen, hand model in coq/Model, theorems in coq/Props) + OCaml-extracted model run against the real code by tools/checks"}],
          "checks": checks,
          "notes": "see DESIGN.md; known genuine defects are listed in known_findings.json",
-         "not_applicable": [{"property_id": i, "reason": REASON_PENDING} for i in IDS if i not in CLAIMED]}
+         "not_applicable": [{"property_id": i, "reason": REASONS.get(i, REASON_PENDING)} for i in IDS if i not in CLAIMED]}
     json.dump(m, open(os.path.join(ROOT, "MANIFEST.json"), "w"), indent=1)
 
 if __name__ == "__main__":
